@@ -236,6 +236,21 @@ fn triple_workload(ctx: &Ctx, ci: usize, n: u8, distinct: &Distinct, direct_nont
         }
     }
     f(&tri, false);
+    // the same lattice in other contexts: frames of 1..7 pixels, and reversed with every triple doubled
+    {
+        let (mut i, mut len) = (0usize, 1usize);
+        while i + len <= tri.len().min(1500) {
+            f(&tri[i..i + len], false);
+            i += len;
+            len = len % 7 + 1;
+        }
+        let mut v = Vec::with_capacity(2000);
+        for t in tri.iter().rev().take(1000) {
+            v.push(*t);
+            v.push(*t);
+        }
+        f(&v, false);
+    }
     // random triples
     let total: u64 = ctx.arg_u64("triples").unwrap_or(if ctx.flag("lite") { 1 << 15 } else { ctx.pick(1 << 18, 1 << 26) });
     let mut rng = Rng::new(ctx.seed, 0x0C01_0000 + ci as u64);
@@ -826,6 +841,23 @@ pub fn c02(ctx: &Ctx) {
                 n_evals += part.len() as u64;
             }
         }
+        // other contexts for the same pixels: images of 1..7 pixels, and reversed with every pixel doubled
+        {
+            let (mut i, mut len) = (0usize, 1usize);
+            while i + len <= px.len().min(1024) {
+                encode_check::<u16>(ci, cfg, &px[i..i + len], &mut acc);
+                n_evals += len as u64;
+                i += len;
+                len = len % 7 + 1;
+            }
+            let mut v = Vec::with_capacity(2048);
+            for p in px.iter().rev().take(1024) {
+                v.push(*p);
+                v.push(*p);
+            }
+            encode_check::<u16>(ci, cfg, &v, &mut acc);
+            n_evals += v.len() as u64;
+        }
         evals.fetch_add(n_evals, Relaxed);
         if !(acc.worst.err <= 1.0) {
             if let Some(at) = acc.worst.at {
@@ -871,6 +903,41 @@ pub fn c02(ctx: &Ctx) {
                 ),
         );
     });
+    // one thread, every config in shuffled orders: an encode must not depend on what was encoded before it
+    {
+        let mut rng = Rng::new(ctx.seed, 0x5E0_0002);
+        let mut seq = 0u64;
+        for pass in 0..3 {
+            let mut order: Vec<usize> = (0..cfgs.len()).collect();
+            for i in (1..order.len()).rev() {
+                order.swap(i, rng.below(i as u64 + 1) as usize);
+            }
+            if pass == 0 {
+                order.sort_by_key(|i| (cfgs[*i].2, cfgs[*i].1));
+            }
+            for ci in order {
+                let (m, full, n) = cfgs[ci];
+                let (px, _) = enc_inputs(&mut rng, m, full, n, 24, false);
+                let mut acc = EncAcc { worst: Worst::new(), hist: [0; 12], clamp_lo: [0; 3], clamp_hi: [0; 3], inrange: [0; 3] };
+                encode_check::<u16>(ci, cfgs[ci], &px, &mut acc);
+                if n == 8 {
+                    encode_check::<u8>(ci, cfgs[ci], &px, &mut acc);
+                }
+                seq += px.len() as u64;
+                if !(acc.worst.err <= 1.0) {
+                    if let Some(at) = acc.worst.at {
+                        ev::violation(
+                            format!("C02|rounding|sequence|{m:?}|{}|n={n}", if full { "full" } else { "limited" }),
+                            format!("encoding configs one after another on one thread (pass {pass}): code {} vs ideal {:.6}", at.got, at.ideal),
+                            J::obj().set("kind", "encode").set("matrix", format!("{m:?}")).set("full", full).set("n", n).set("u8", at.u8s).set("rgb", px_json(at.px)).set("note", "depends on the preceding encodes: re-run the check with the same seed"),
+                        );
+                    }
+                }
+            }
+        }
+        ev::observe("sequential_order_pixels", seq);
+        evals.fetch_add(seq, Relaxed);
+    }
     let mut pc = per_cfg.into_inner().unwrap();
     pc.sort_by_key(|j| j.to_string());
     let g = tot.lock().unwrap();
